@@ -150,6 +150,35 @@ Qed.
 Lemma count_lt_le t2 crit : (count_lt t2 crit <= length crit)%nat.
 Proof. induction crit as [|x t IH]; cbn [count_lt length]; [lia|]. destruct (2 * fst x <? t2); lia. Qed.
 
+(* ---------- the progress test of fix 98041ea never fires on integers ---------- *)
+
+Lemma vb_guard_never lo lu w : (lo - lu <=? w) = false -> vb_guard lo lu w = false.
+Proof.
+  intros H. apply Z.leb_gt in H. unfold vb_guard.
+  destruct (Z.ltb_spec (lo - w) (lu + w)); cbn [andb]; auto.
+  destruct (Z.ltb_spec (lu + w - (lo - w)) (lo - lu)); cbn [negb]; auto. lia.
+Qed.
+
+Lemma vb_step_eq flt crit st : vb_step flt crit st = vb_step0 flt crit st.
+Proof.
+  unfold vb_step, vb_step0, vb_step_g. destruct st as [[p L] n].
+  destruct (minmax_pos L) as [[under over]|]; auto.
+  destruct (nth_opt L over) as [lo|]; auto. destruct (nth_opt L under) as [lu|]; auto.
+  destruct (nearest _ _ _ _ _ _ _) as [[c|]| | |]; auto.
+  destruct (nth_opt crit c) as [[w id]|]; auto.
+  destruct ((lo - lu <=? w) || (w =? 0)) eqn:E; auto.
+  apply orb_false_iff in E as [E _]. rewrite (vb_guard_never _ _ _ E). reflexivity.
+Qed.
+
+Lemma iter_pos_ext {St R} (f g : St -> St + R) : (forall s, f s = g s) ->
+  forall n s, iter_pos f n s = iter_pos g n s.
+Proof.
+  intros H. induction n as [n IH|n IH|]; intros s; cbn [iter_pos].
+  - rewrite H. destruct (g s) as [s1|r]; auto. rewrite IH. destruct (iter_pos g n s1); auto.
+  - rewrite IH. destruct (iter_pos g n s); auto.
+  - apply H.
+Qed.
+
 (* ---------- the invariant of the loop ---------- *)
 
 Section Loop.
@@ -168,7 +197,7 @@ Section Loop.
   Qed.
 
   (* what a move is *)
-  Lemma vb_step_move p L n p' L' n' : VB (p, L, n) -> vb_step flt crit (p, L, n) = inl (p', L', n') ->
+  Lemma vb_step_move p L n p' L' n' : VB (p, L, n) -> vb_step0 flt crit (p, L, n) = inl (p', L', n') ->
     exists under over id w lu lo,
       nth_opt L under = Some lu /\ nth_opt L over = Some lo
       /\ (forall x, In x L -> lu <= x) /\ (forall x, In x L -> x <= lo)
@@ -177,7 +206,7 @@ Section Loop.
       /\ p' = set_nth p id (N.of_nat under)
       /\ L' = set_nth (set_nth L over (lo - w)) under (lu + w).
   Proof.
-    intros [Hlen [Hk HL]] H. unfold vb_step in H.
+    intros [Hlen [Hk HL]] H. unfold vb_step0, vb_step_g in H. cbn [andb] in H.
     destruct (minmax_pos L) as [[under over]|] eqn:Em; [|discriminate].
     destruct (minmax_pos_spec _ _ _ Em) as [lu [lo [Hu [Ho [Hmin Hmax]]]]].
     rewrite Ho, Hu in H.
@@ -196,7 +225,7 @@ Section Loop.
     exists under, over, id, w, lu, lo. repeat split; auto; lia.
   Qed.
 
-  Lemma vb_step_pres st st' : (2 <= k)%nat -> VB st -> vb_step flt crit st = inl st' ->
+  Lemma vb_step_pres st st' : (2 <= k)%nat -> VB st -> vb_step0 flt crit st = inl st' ->
     VB st' /\ gap (snd (fst st')) <= gap (snd (fst st)) /\ 0 <= sumsq (snd (fst st')) < sumsq (snd (fst st)).
   Proof.
     destruct st as [[p L] n], st' as [[p' L'] n']. intros Hk2 HV H. cbn [fst snd].
@@ -257,7 +286,7 @@ Lemma vn_best_inv flt ws p r : vn_best flt ws p = r ->
   \/ (length ws = length p /\ Forall (fun w => 0 <= w) ws /\
       (r = Ok (p, 0%N)
        \/ ((2 <= part_count p)%nat /\
-           r = match iter_pos (vb_step flt (rev (sort_items_desc (items_of ws))))
+           r = match iter_pos (vb_step0 flt (rev (sort_items_desc (items_of ws))))
                               (Z.to_pos (1 + sumsq (loads ws p (part_count p))))
                               (p, loads ws p (part_count p), 0%N) with
                | inl _ => OutOfFuel
@@ -271,7 +300,8 @@ Proof.
   - right. apply existsb_neg in En. repeat split; auto.
     destruct (Nat.eqb (length p) 0 || forallb (fun w => w =? 0) ws || Nat.ltb (part_count p) 2) eqn:Ee; [left; auto|].
     right. apply orb_false_iff in Ee as [_ Ek]. apply Nat.ltb_ge in Ek. split; [exact Ek|].
-    rewrite parts_load_loads by exact Hlen. reflexivity.
+    rewrite parts_load_loads by exact Hlen. cbn [bind].
+    rewrite (iter_pos_ext _ _ (vb_step_eq flt (rev (sort_items_desc (items_of ws))))). reflexivity.
 Qed.
 
 Theorem vnbest_terminates : forall flt ws p, vn_best flt ws p <> OutOfFuel.
@@ -283,7 +313,7 @@ Proof.
   rewrite iter_pos_nat in C.
   assert (Hsq : 0 <= sumsq L0).
   { unfold sumsq. clear. induction L0 as [|x t IH]; cbn [map]; rewrite ?sumZ_cons; [unfold sumZ; cbn; lia|nia]. }
-  destruct (iter_nat_term (vb_step flt crit) (VB ws k) (fun st => sumsq (snd (fst st)))) with
+  destruct (iter_nat_term (vb_step0 flt crit) (VB ws k) (fun st => sumsq (snd (fst st)))) with
     (n := Pos.to_nat (Z.to_pos (1 + sumsq L0))) (s := (p, L0, 0%N)) as [r Hr].
   - intros s s' Hs E. destruct (vb_step_pres flt ws k Hnn s s' Hk Hs E) as [V [_ M]]. auto.
   - repeat split; auto. apply ids_lt_part_count.
@@ -291,8 +321,8 @@ Proof.
   - cbn [fst snd]. rewrite positive_nat_Z, Z2Pos.id by lia. lia.
   - rewrite Hr in C.
     (* the result of the loop itself is never OutOfFuel *)
-    destruct (iter_nat_inv (vb_step flt crit) (fun _ => True) (fun _ _ _ _ => I) _ _ _ I Hr) as [[[p1 L1] n1] [_ E]].
-    subst r. unfold vb_step in E.
+    destruct (iter_nat_inv (vb_step0 flt crit) (fun _ => True) (fun _ _ _ _ => I) _ _ _ I Hr) as [[[p1 L1] n1] [_ E]].
+    subst r. unfold vb_step0, vb_step_g in E. cbn [andb] in E.
     destruct (minmax_pos L1) as [[under over]|]; [|discriminate].
     destruct (nth_opt L1 over); [|discriminate]. destruct (nth_opt L1 under); [|discriminate].
     destruct (nearest _ _ _ _ _ _ _) as [[c|]| | |] eqn:En; try discriminate.
@@ -321,8 +351,8 @@ Proof.
     - fold k in C, Hk. set (L0 := loads ws p k) in *.
       set (crit := rev (sort_items_desc (items_of ws))) in *.
       rewrite iter_pos_nat in C.
-      destruct (iter_nat (vb_step flt crit) _ _) as [?|r] eqn:Hr; [discriminate|]. subst r.
-      destruct (iter_nat_inv (vb_step flt crit)
+      destruct (iter_nat (vb_step0 flt crit) _ _) as [?|r] eqn:Hr; [discriminate|]. subst r.
+      destruct (iter_nat_inv (vb_step0 flt crit)
                   (fun st => VB ws k st /\ gap (snd (fst st)) <= gap L0)) with
         (n := Pos.to_nat (Z.to_pos (1 + sumsq L0))) (s := (p, L0, 0%N)) (r := @Ok (list N * N) (p', n))
         as [[[p1 L1] n1] [[[Hl1 [Hk1 HL1]] Hg] E]].
@@ -331,7 +361,7 @@ Proof.
       + exact Hr.
       + (* the loop ends by returning the current partition *)
         assert (p1 = p').
-        { unfold vb_step in E.
+        { unfold vb_step0, vb_step_g in E. cbn [andb] in E.
           destruct (minmax_pos L1) as [[under over]|]; [|discriminate].
           destruct (nth_opt L1 over); [|discriminate]. destruct (nth_opt L1 under); [|discriminate].
           destruct (nearest _ _ _ _ _ _ _) as [[c|]| | |]; try discriminate.
@@ -369,14 +399,14 @@ Proof.
   set (k := part_count p) in *. set (L0 := loads ws p k) in *.
   set (crit := rev (sort_items_desc (items_of ws))) in *.
   rewrite iter_pos_nat in C.
-  destruct (iter_nat (vb_step flt crit) _ _) as [?|r] eqn:Hr; [discriminate|]. subst r.
-  destruct (iter_nat_inv (vb_step flt crit) (VB ws k)) with
+  destruct (iter_nat (vb_step0 flt crit) _ _) as [?|r] eqn:Hr; [discriminate|]. subst r.
+  destruct (iter_nat_inv (vb_step0 flt crit) (VB ws k)) with
     (n := Pos.to_nat (Z.to_pos (1 + sumsq L0))) (s := (p, L0, 0%N)) (r := @Panic (list N * N) s)
     as [[[p1 L1] n1] [[Hl1 [Hk1 HL1]] E]].
   - intros s0 s' Hs E. now destruct (vb_step_pres flt ws k Hnn s0 s' Hk Hs E) as [V _].
   - repeat split; auto. apply ids_lt_part_count.
   - exact Hr.
-  - unfold vb_step in E.
+  - unfold vb_step0, vb_step_g in E. cbn [andb] in E.
     assert (HlenL : length L1 = k) by (rewrite HL1; apply loads_length).
     destruct (minmax_pos L1) as [[under over]|] eqn:Em.
     2:{ destruct L1; [cbn in HlenL; lia|discriminate]. }
